@@ -50,16 +50,31 @@ def budget(tier):
     return {"examples": 64000, "shrink_cap_s": 240, "wall_cap_s": 3000, "enum_sources": 40}
 
 
-def valid_project(ch, kind, excl, assoc=False):
+def valid_project(ch, kind, excl, assoc=False, want_refs=False, assoc_pool=None):
+    refs = []
     if kind == "c08":
-        proj = c08.gen_model(ch, tuple(excl), assoc_from_unused_procs=assoc)[0]
+        proj, refs, _, _ = c08.gen_model(ch, tuple(excl), assoc_from_unused_procs=assoc, assoc_pool=assoc_pool)
     else:
         proj, _ = gen.gen_project(ch, {"docs": True, "excl": tuple(excl)})
     files, _ = render.render_project(proj, ch, features={"comments": True})
-    return files
+    return (files, refs) if want_refs else files
 
 
-KINDS = [(5, "truncate"), (2, "splice"), (2, "drop-end"), (1, "dup-end"), (1, "drop-contains"), (1, "dup-contains"),
+def calls_in_tree(tree, path):
+    """Recorded calls of the unit at `path` (unit/proc/proc) in an extracted tree, or None."""
+    for units in tree.values():
+        for u in units:
+            if u["name"] == path[0]:
+                cur = u
+                for nm in path[1:]:
+                    cur = next((p for p in cur.get("procs", []) if p["name"] == nm), None)
+                    if cur is None:
+                        return None
+                return cur.get("calls")
+    return None
+
+
+KINDS = [(5, "truncate"), (3, "truncate-in-construct"), (2, "splice"), (2, "drop-end"), (1, "dup-end"), (1, "drop-contains"), (1, "dup-contains"),
          (2, "swap-keyword"), (3, "junk"), (1, "bytes"), (1, "empty"), (1, "truncate-midline")]
 SWAPS = [("subroutine", "function"), ("module", "program"), ("function", "subroutine"), ("type", "interface"),
          ("interface", "type"), ("program", "module"), ("submodule", "module"), ("associate", "block")]
@@ -81,6 +96,21 @@ def corrupt(plan, texts, cut=None):
     at = lambda n, frac: (frac * (n + 1)) // 1000        # 0..n
     endish = [i for i, l in enumerate(lines) if re.match(r"\s*end\b", l, re.I)]
     contains = [i for i, l in enumerate(lines) if l.strip().lower() == "contains"]
+    if kind == "truncate-in-construct":
+        # cut inside an open ASSOCIATE / BLOCK / INTERFACE / TYPE / SELECT construct
+        inside, depth = [], 0
+        for i, l in enumerate(lines):
+            t = l.strip().lower()
+            if re.match(r"(\w+\s*:\s*)?(associate\s*\(|block$|interface|abstract interface|type\b(?!\s*\()|select)", t):
+                depth += 1
+            elif re.match(r"end\s*(associate|block$|interface|type|select)", t):
+                depth = max(0, depth - 1)
+            elif depth:
+                inside.append(i)
+        if inside:
+            k = inside[plan["a"] % len(inside)]
+            return "\n".join(lines[:k]) + "\n", kind
+        kind = "truncate"
     if kind == "truncate":
         k = cut if cut is not None else at(len(lines) - 1, plan["a"])
         return "\n".join(lines[:k]) + "\n", kind
@@ -125,8 +155,18 @@ def gen_case(ch: Chooser, excl=()):
     bk = ch.choice(["c08", "c01"])
     plans = [plan_corruption(ch) for _ in range(ch.weighted([(4, 1), (2, 2), (1, 3)]))]
     order_key = [ch.int(1000) for _ in range(12)]
-    P = valid_project(ch, pk, excl)
-    B = valid_project(ch, bk, excl, assoc=True)
+    bad_first = ch.bool(1, 3)
+    if any(pl["kind"] == "truncate-in-construct" for pl in plans) and ch.bool(2, 3):
+        pk = bk = "c08"      # executable parts (ASSOCIATE, BLOCK, SELECT) on both sides
+    probe = ch.bool(1, 5)       # leak probe: the corrupt file uses P's procedure names as construct-local names
+    if probe:
+        pk = bk = "c08"
+        for pl in plans:
+            pl["kind"] = "truncate-in-construct"
+        bad_first = True
+    P, P_refs = valid_project(ch, pk, excl, want_refs=True)
+    pool = sorted({x.rsplit("/", 1)[-1] for r in P_refs for x in r["expect"] if "/" in x and x.count("/") == 1})
+    B = valid_project(ch, bk, excl, assoc=True, assoc_pool=pool if probe else None)
     texts = [B[k] for k in sorted(B)]
     bad = {}
     kinds = []
@@ -136,8 +176,11 @@ def gen_case(ch: Chooser, excl=()):
         kinds.append(kind)
     names = sorted(P) + sorted(bad)
     order = [n for _, n in sorted(zip(order_key + [0] * len(names), names), key=lambda t: (t[0], t[1]))]
-    return {"P": P, "bad": bad, "order": order, "classes": ["P:" + pk, "B:" + bk] + ["corrupt:" + k for k in kinds],
-            "nfilesP": len(P)}
+    if bad_first:
+        order = sorted(bad) + [n for n in order if n not in bad]
+    return {"P": P, "bad": bad, "order": order,
+            "classes": ["P:" + pk, "B:" + bk] + ["corrupt:" + k for k in kinds] + (["leak-probe"] if probe else []),
+            "nfilesP": len(P), "P_calls": [[r["scope"], r["expect"]] for r in P_refs]}
 
 
 def strategy(tier, excl):
@@ -194,6 +237,40 @@ def run(files, order):
 
 
 def check(case) -> Result:
+    """Each case runs in a forked child: nothing a corrupt file leaves behind in the process can
+    influence (or be hidden by) another case, and a hang is killed by the parent."""
+    from vfw.runner import isolated
+    _warm_up()
+    res, status = isolated(_check, case, timeout=3 * WATCHDOG_S)
+    if status == "ok":
+        return res
+    out = Result(classes=list(case.get("classes", [])))
+    if status == "timeout":
+        out.fail("hang", f"no result after {3 * WATCHDOG_S} s (corrupt files {sorted(case['bad'])}, order {case['order']})")
+    else:
+        out.fail("HARNESS:child-" + status[:60], status)
+    return out
+
+
+_WARM = False
+
+
+def _warm_up():
+    """Pay one-off costs (lazy imports, regex and lexer caches) in the parent, so that forked
+    children start warm.  Uses a fixed valid project; leaves no state that matters (the name
+    selector is reset by every run)."""
+    global _WARM
+    if _WARM:
+        return
+    _WARM = True
+    try:
+        run({"src/warm.f90": "module warm\ninteger :: x !! doc\ncontains\nsubroutine s()\ncall s()\nend subroutine\nend module\n"},
+            ["src/warm.f90"])
+    except Exception:
+        pass
+
+
+def _check(case) -> Result:
     res = Result(classes=list(case.get("classes", [])))
     if case.get("enum"):
         res.digest = None
@@ -229,6 +306,13 @@ def check(case) -> Result:
         if name not in out1:
             res.fail("rejected-file-not-named", f"{b} was skipped but no diagnostic names it; output: {out1[-300:]!r}")
     if not accepted:
+        # absolute oracle (independent of what earlier cases may have left in the process): the call
+        # sets of a call-rich P are known by construction
+        for path, expect in case.get("P_calls", []):
+            got = calls_in_tree(t1, path)
+            if got is not None and sorted(set(got)) != sorted(expect):
+                res.fail("valid-files-disturbed:calls-vs-construction",
+                         f"{'/'.join(path)}: calls {got} but the source invokes {expect} (corrupt files {sorted(bad)})")
         # every valid file must still be registered, with the same tree and the same page identifiers
         lost = [p for p in reg0 if p not in reg1]
         if lost:
